@@ -378,4 +378,32 @@ Plan generate_diff(uint64_t seed) {
     return pl;
 }
 
+Plan generate_exhaust(uint64_t seed) {
+    Plan pl; pl.seed = seed;
+    Rng r = Rng::keyed(seed, "genexhaust");
+    Knobs& k = pl.knobs;
+    k.profile = "clean"; k.focus = "C08x"; k.variant = (int)r.below(2);
+    k.max_steps = 20000000;
+    HostCfg h; h.name = "h0"; k.hosts.push_back(h);
+    k.client.brokers = "h0"; k.client.client_id = "exhaust"; k.client.keep_alive = 0;
+    auto& nk = k.net; nk.lat_max = 1 * MS; nk.short_write_p = 0; nk.seg_split_p = 0;
+    auto& bk = k.broker; bk.ack_delay_max = 0; bk.ack_zero_p = 1.0;
+    bool leak_mode = seed % 2 == 1;
+    int id = 1;
+    auto push = [&](Step s) { s.id = id++; pl.steps.push_back(std::move(s)); };
+    if (leak_mode) bk.base_caps.max_packet = 200;      // requests with a 300 byte payload are rejected locally
+    { Step s; s.kind = SK::Run; push(s); }
+    if (leak_mode) {
+        // 70000 rejected requests must not consume packet identifiers: a valid QoS 1 publish afterwards is accepted
+        { Step s; s.kind = SK::PublishBurst; s.a = 70000; s.b = (int)r.range(1, 2); s.c = 1; s.d = 300; s.delay = 1 * SEC; push(s); }
+        { Step s; s.kind = SK::Publish; s.a = 1; s.s1 = "t/" + std::to_string(id); s.s2 = std::to_string(id) + ":ok"; s.delay = 10 * MS; push(s); }
+    } else {
+        // the broker withholds every acknowledgement; 65535 publishes are accepted, the rest is refused with pid_overrun
+        { Step s; s.kind = SK::FPingSilent; s.a = 1; s.delay = 1 * SEC; push(s); }
+        { Step s; s.kind = SK::PublishBurst; s.a = 65535 + (int)r.range(1, 40); s.b = 1; s.delay = 10 * MS; push(s); }
+        { Step s; s.kind = SK::Wait; s.delay = 1 * SEC; push(s); }
+    }
+    return pl;
+}
+
 } // namespace app
